@@ -35,6 +35,7 @@ REQUIRED_THEOREMS = [
     "TapkeeVerif.Tsne.run_joint_distribution",
     "TapkeeVerif.Tsne.run_exaggeration",
     "TapkeeVerif.Tsne.run_schedule",
+    "TapkeeVerif.Tsne.run_update_rule_is_spec",
     "TapkeeVerif.Tsne.run_stage_order",
     "TapkeeVerif.Tsne.run_bisection_tolerance",
     "TapkeeVerif.Tsne.run_quadtree_constants",
@@ -251,9 +252,11 @@ def c_bhg(r, d=2):
                                                                    fmts(vals) if vals else "", fmts(flat(Y)), th)
 
 
-def c_run(r, bh):
+def c_run(r, bh, theta=None, upto=260):
     """the real TSNE::run on a tiny input, observed through its progress log (error value + map snapshot at the logged
-    iterations); generic dyadic data without distance ties, replayed Gaussian stream"""
+    iterations) and through its per-iteration observer hook (the map after each of the iterations 0..upto: every step,
+    including the end of the exaggeration and the momentum switch after iteration 250, is compared with the specified
+    update rule); generic dyadic data without distance ties, replayed Gaussian stream"""
     while True:
         n = r.range(7, 9) if bh else r.range(4, 6)
         d = r.range(1, 3)
@@ -270,8 +273,8 @@ def c_run(r, bh):
     if not bh and perp >= n - 1:
         perp = Fraction(3, 2)
     g = [dy(r.range(-40, 40), -4) for _ in range(2 * n)]
-    return "run N=%d D=%d X=%s perp=%s theta=%s dim=2 g=%s at=50,250,300" % (
-        n, d, fmts(flat(pts)), fmt(perp), "1:-1" if bh else "0", fmts(g))
+    return "run N=%d D=%d X=%s perp=%s theta=%s dim=2 g=%s at=50,250,300 upto=%d" % (
+        n, d, fmts(flat(pts)), fmt(perp), (theta or "1:-1") if bh else "0", fmts(g), upto)
 
 
 def c_api(r, dim=2, theta="1:-1"):
@@ -329,7 +332,12 @@ ORACLES = {
     "run": [("spec", "run:joint-distribution-or-schedule",
              "the error values TSNE::run logs (iterations 50, 250, 300) are not those of the specified run: joint similarities "
              "symmetrised and summing to one (over floor(3*perplexity) neighbours in the Barnes-Hut branch), exaggerated by 12 "
-             "up to iteration 250 and not afterwards")],
+             "up to iteration 250 and not afterwards"),
+            ("step", "run:update-rule",
+             "an iteration of TSNE::run (observed after every iteration through the observer hook) is not the specified "
+             "step from the previous map: gradient of KL on the specified joint distribution (exaggerated by 12 through "
+             "iteration 250), gains +0.2/x0.8 floored at 0.01, learning rate 200, momentum 0.5 through iteration 250 then "
+             "0.8, re-centred")],
     "api": [("centred", "api:not-centred", "the returned map is not centred"),
             ("pure", "api:cluster-separation", "two well-separated clusters are mixed in the returned map (test-level check)")],
 }
@@ -371,6 +379,9 @@ def verdict(line, io, mo):
     c = m.get("cmp", "")
     if c.startswith("BAD") or c.startswith("model-ERR") or c.startswith("noobs") or mo.startswith("bad") or mo.startswith("ERR"):
         return ("broken", "corr:" + topic, "model and implementation disagree on %s: %s" % (topic, (c or mo)[:300]))
+    if topic == "run" and m.get("stepm", "").startswith("BAD"):
+        return ("broken", "corr:run-step", "an iteration of the Barnes-Hut branch of TSNE::run is not the step of the model "
+                "of computeGradient + update rule from the previous map: " + m["stepm"][:300])
     if topic == "vps" and m.get("wf") == "BAD":
         return ("broken", "contract:vptree-build", "the dumped tsne::VpTree violates the construction contract (nth_element partition)")
     return None
@@ -441,6 +452,14 @@ def judge(ctx, binary, lines, label, do_shrink=True, timeout=300):
         elif topic == "run" and " theta=0 " in line and m.get("dyn", "").startswith("BAD"):
             ctx.stat("run-dynamics-diverged")
             ctx.extra.setdefault("_dyn_example", (line, io, mo))
+        for k in ("step", "stepm"):
+            if topic == "run" and m.get(k, "").startswith("ok:"):
+                parts = m[k].split(":")
+                ctx.stat("run-iterations-checked-against-%s" % ("specified-step" if k == "step" else "model-step"), int(parts[1]))
+                if int(parts[1]) > 252:
+                    ctx.stat("run-exaggeration-and-momentum-switch-steps-checked")
+                if len(parts) > 2:
+                    ctx.stat("run-step-replay-stopped-at-near-tie")
         if topic == "vps" and "fid" in m:
             a, b = m["fid"].split("/")
             ctx.stat("vptree-result-ids-identical", int(a))
@@ -521,8 +540,10 @@ def correspond(ctx):
             ("exg-fd", lambda: c_exg(r.fork(), fd=True), 10, 200),
             ("bhg", lambda: c_bhg(r.fork()), 120, 3000),
             ("bhg-dims", lambda: c_bhg(r.fork(), d=r.choice([1, 3])), 6, 60),
-            ("run-exact", lambda: c_run(r.fork(), bh=False), 10, 150),
-            ("run-bh", lambda: c_run(r.fork(), bh=True), 8, 100)]
+            ("run-exact", lambda: c_run(r.fork(), bh=False), 10, 100),
+            ("run-bh", lambda: c_run(r.fork(), bh=True), 8, 60),
+            # Barnes-Hut branch with theta = 2^-20: every cell is opened, the specified step is the exact formula
+            ("run-bh-theta-small", lambda: c_run(r.fork(), bh=True, theta="1:-20"), 6, 40)]
     for name, gen, nq, nt in plan:
         ctx.log("stage", name)
         lines = [gen() for _ in range(nq if quick else nt)]
